@@ -12,7 +12,7 @@ from typing import Dict, List, Optional, Set
 
 from ..program import AnalysisError, FunctionInfo, fn_nodes, norm
 from ..cfg import cfg_of
-from .common import len_vs_const, misguarded_member_stores, resolve_all, find_local, JWE_CONSUME, JWE_PRODUCE, can_reach_exit, const_value, entries, impls, is_const, scope_of, sites_calling, succ_by_label
+from .common import isinstance_excludes, len_vs_const, misguarded_member_stores, resolve_all, find_local, JWE_CONSUME, JWE_PRODUCE, can_reach_exit, const_value, entries, impls, is_const, scope_of, sites_calling, succ_by_label
 
 RFC7516_TOP = {"protected", "unprotected", "iv", "aad", "ciphertext", "tag"}
 RFC7516_RCP = {"header", "encrypted_key"}
@@ -264,6 +264,13 @@ def r04_4(ctx) -> None:
     rvn = rets_h[0].id if len(rets_h) == 1 and isinstance(rets_h[0], ast.Name) else "\0"
     fresh = [d for d in eng.flow._defs(h).get(rvn, []) if d[0] == "assign"]
     ok = ok and len(fresh) == 1 and isinstance(fresh[0][1], ast.Dict) and not fresh[0][1].keys
+    base_ = P.cls("rfc7516.models:BaseJSONEncryption")
+    for u in ups:
+        if u.args and norm(u.args[0]).endswith(".unprotected"):
+            why_ = isinstance_excludes(eng, h, u, base_.all_subclasses())
+            ctx.check(why_ is None, "R04.4", h, u, f"{h.short} :: shared unprotected header of every JSON serialization", "the shared unprotected header is merged into a recipient's "
+                      f"headers only for some JSON serialization classes: {why_} - for the others alg / epk / p2s ... placed there are ignored", "isinstance(parent, BaseJSONEncryption)",
+                      construct="unprotected merge class coverage")
     ctx.check(ok, "R04.4", h, h.node, h.short, f"Recipient.headers does not merge protected, then shared unprotected, then per-recipient members into a fresh dict (order {order})",
               "rv = {}; update(protected); update(unprotected); update(header)", construct="header merge order")
     cfg = cfg_of(ah)
@@ -333,6 +340,8 @@ def _drop_json_opt(t):
     if t[0] == "CAT":
         parts = [_drop_json_opt(x) for x in t[1] if not (isinstance(x, tuple) and x and x[0] == "OPT" and "BaseJSONEncryption" in str(x[1]))]
         return parts[0] if len(parts) == 1 else ("CAT", tuple(parts))
+    if t[0] == "ALT" and len(t) == 4 and "BaseJSONEncryption" in str(t[1]):
+        return _drop_json_opt(t[3])  # the branch taken when the JSON-only condition is false
     return tuple(_drop_json_opt(x) for x in t)
 
 
@@ -396,7 +405,30 @@ def r04_7(ctx) -> None:
     ctx.assume("codec laws used by R04.7: split('.') of base64url segments; B64D(B64U(x)) = x; enc.decrypt(enc.encrypt(M, k, iv, aad), k, iv, aad) = M (primitive)")
 
 
+def r04_8(ctx) -> None:
+    """several recipients of mixed algorithms / key sizes / curves: a recipient that cannot be processed with the given key is
+    skipped (unless every recipient must verify) whatever library error it fails with - the handler around the per-recipient CEK
+    recovery catches the base error class"""
+    from .common import handler_catches
+    eng = ctx.eng
+    pd = eng.prog.func("rfc7516.message:_perform_decrypt")
+    n = 0
+    for tr in [x for x in fn_nodes(pd) if isinstance(x, ast.Try)]:
+        if not any(isinstance(y, ast.Call) and norm(y.func).endswith("decrypt_recipient") for b in tr.body for y in ast.walk(b)):
+            continue
+        n += 1
+        caught = set()
+        for h in tr.handlers:
+            caught |= set(handler_catches(eng, pd, h))
+        ok = any(c.split(":")[-1].split(".")[-1] in ("JoseError", "Exception", "BaseException", "*") for c in caught)
+        ctx.check(ok, "R04.8", pd, tr, f"{pd.short} :: per-recipient handler", f"the handler around decrypt_recipient catches {sorted(caught)} but not the library's base error: a recipient that "
+                  "fails with another JoseError (wrong key size, other curve) aborts the decryption for the recipients that would succeed", "except (AssertionError, JoseError)",
+                  construct="per-recipient error handler classes")
+    ctx.count("R04.8", n, 1, "try blocks around decrypt_recipient")
+
+
 def run(ctx) -> None:
+    ctx.guard(r04_8)
     ctx.guard(r04_7)
     # "with DEF, for plaintexts up to the decompression limit": the completion gate of the bounded inflater (C17) decides whether a
     # plaintext of exactly the limit still round-trips
